@@ -279,7 +279,8 @@ class StmtChecker(AstVisitor[BBStatement]):
                 unsolved = array_type(ExistentialTypeVar.fresh("T", True, True), 0)
                 raise GuppyError(TypeInferenceError(starred, unsolved))
             array_ty = array_type(starred_ty, len(starred_tys))
-            unpack.pattern.starred = self._check_assign(starred, rhs_elts[0], array_ty)
+            # Note that `rhs_elts` is empty when unpacking an array of length zero
+            unpack.pattern.starred = self._check_assign(starred, rhs, array_ty)
 
         return with_type(rhs_ty, with_loc(lhs, unpack))
 
